@@ -24,6 +24,7 @@ ATOMS = {
     "empty": ("",),
     "x01": (b"\x01",),
     "xff": (b"\xff",),
+    "xc3a9": (b"\xc3\xa9",),   # valid UTF-8 ('é') whose Latin-1 reading is two characters: a view under another encoding is observably different
     "b0": (0,),
     "b1": (1,),
     "nib": (("node", "<nib>", (1, 0, 1, 0)),),
@@ -269,6 +270,19 @@ def work(item):
                                             nonlatin_text_followed_by_bits=text_then_bits and a == "str" and g[0] == "ok" and g[1] == _latin1_model(leaves),
                                             bit_run_spans_subtrees_then_bytes=(g[0] == "err" and w[0] == "ok" and _locally_misaligned(shape, atom_names)),
                                             sig=f"wrong_value:{a}:{g[0]}-vs-{w[0]}"))
+            if prelude is not None:
+                # differential against the initial state: after this history every NODE (not only the root) must give the views a
+                # freshly built, never queried copy of the tree gives
+                fresh = all_nodes(build_tree(shape, atom_names), [])
+                for k, (n_old, n_new) in enumerate(zip(all_nodes(tree, []), fresh)):
+                    for a in ("str", "bytes"):
+                        if call(n_old, a) != call(n_new, a):
+                            res["viol"].append(dict(base, kind="earlier_view_changes_later_result", node_preorder_index=k, accessor=a,
+                                                    after_history=repr(call(n_old, a)), fresh=repr(call(n_new, a)), sig=f"earlier_view_changes_later_result:{a}"))
+                            break
+                    else:
+                        continue
+                    break
             key = tuple(sorted((a, repr(got[a])) for a in ACCESSORS))
             res["outcomes"].add(key)
             prev = seen_results.setdefault("all", key)
